@@ -94,6 +94,25 @@ def class_legs(work, tier, seed):
                 if d is not None:
                     done += len(generic_ops(d, structural=(i % 3 == 0)))
             counts[cls] = done
+        # rigid diagrams with snakes the bounded machine does not reach: nested snakes, loops and snakes over the
+        # self-dual object, and wrong-way pairs (Cup and Cap accept both orientations of an adjunction: a cap and a cup
+        # that meet on one wire but leave different types on either side are not a snake)
+        from harness.checks import c07
+        from harness.adapters.free import RigidAdapter
+        A = RigidAdapter()
+        K = lambda kind, dom, cod, id_=0: {"id": id_, "kind": kind, "dom": dom, "cod": cod, "dg": 0}
+        xl, x, xr = [1, -1], [1, 0], [1, 1]
+        wrong = [{"dom": [xr], "cod": [xl], "boxes": [K(3, [], [xl, x]), K(2, [x, xr], [])], "offs": [0, 1]},
+                 {"dom": [xr], "cod": [xl], "boxes": [K(0, [xr], [xr], 7), K(3, [], [xl, x]), K(2, [x, xr], [])], "offs": [0, 0, 1]},
+                 {"dom": [xl], "cod": [xr], "boxes": [K(3, [], [x, xr]), K(2, [xl, x], [])], "offs": [1, 0]}]
+        done = 0
+        for dabs in c07.nested_family()[::4] + c07.self_dual_family() + wrong:
+            try:
+                d = A.build(dabs, 0)
+            except Exception:
+                continue
+            done += len(generic_ops(d, structural=False))
+        counts["rigid-snakes"] = done
     finally:
         sink.uninstall()
     EXTRA_HOOK_ROWS.extend(sink.seen.values())
